@@ -632,7 +632,32 @@ func c03Parse(ctx *Ctx, c *C03Case, f *simFile) (res parseResult) {
 		var callErr error
 		f.park = func() { verifrt.Yield("read@simfile") }
 		f.parkClose = func() { verifrt.Yield("close@simfile") }
+		// a neighbour: in half of these runs another, valid, stream of three Phylip alignments is parsed by another
+		// goroutine in the same schedule (a command that opens two inputs); it must come back as written whatever
+		// the stream under test holds
+		neighbour := c.SchedSeed%2 == 0
+		const nbText = "   2   4\nn1  ACGT\nn2  AGGT\n   3   6\nm1  ACGTAC\nm2  AGGTAC\nm3  A-GTAC\n   2   10\nk1  ACGTACGTAC\nk2  ACGTACGTTT\n"
+		var nbGot []string
+		var nbErr error
+		nbDone := false
 		sr := RunSched(ctx.T, SchedCfg{Seed: c.SchedSeed, Policy: c.Policy, MaxSteps: 300000}, func() {
+			if neighbour {
+				verifrt.Go("neighbour@harness", func() {
+					f2 := newSimFile([]byte(nbText), ReadPlan{Mode: FragSmall, Seed: c.SchedSeed, ErrAt: -1})
+					f2.park = func() { verifrt.Yield("read@simfile2") }
+					f2.parkClose = func() { verifrt.Yield("close@simfile2") }
+					ac2, _, err := utils.ParseMultiAlignmentsAuto(f2, bufio.NewReader(f2), false, align.BOTH)
+					if err != nil {
+						nbErr, nbDone = err, true
+						return
+					}
+					for al := range ac2.Achan {
+						verifrt.Yield("consume2@harness")
+						nbGot = append(nbGot, snapshotAlign(al))
+					}
+					nbErr, nbDone = ac2.Err, true
+				})
+			}
 			ac, _, err := utils.ParseMultiAlignmentsAuto(f, bufio.NewReader(r), false, c.Alphabet)
 			if err != nil {
 				callErr = err
@@ -656,6 +681,19 @@ func c03Parse(ctx *Ctx, c *C03Case, f *simFile) (res parseResult) {
 		}
 		if sr.Deadlock || sr.Budget || !sr.RootDone {
 			panic(panicInfo{fmt.Sprintf("the stream of alignments never ends: deadlock=%v budget=%v after %d scheduler steps", sr.Deadlock, sr.Budget, sr.Steps), "goroutine dump:\n" + sr.Stacks + "\ngithub.com/evolbioinfo/goalign/io/utils.ParseMultiAlignmentsAuto(...)\n"})
+		}
+		if neighbour {
+			want := []string{"n=2", "n=3", "n=2"}
+			ok := nbDone && nbErr == nil && len(nbGot) == 3
+			for i := 0; ok && i < 3; i++ {
+				ok = strings.HasPrefix(nbGot[i], want[i])
+			}
+			if ok {
+				ok = strings.Contains(nbGot[0], "ACGT") && strings.Contains(nbGot[0], "AGGT") && strings.Contains(nbGot[1], "A-GTAC") && strings.Contains(nbGot[2], "ACGTACGTTT")
+			}
+			if !ok {
+				panic(panicInfo{fmt.Sprintf("neighbour-stream: a valid stream of three Phylip alignments parsed by another goroutine at the same time comes back as %d alignments, error %v, finished %v: %q", len(nbGot), nbErr, nbDone, nbGot), "github.com/evolbioinfo/goalign/io/utils.ParseMultiAlignmentsAuto(neighbour)\n"})
+			}
 		}
 		if callErr != nil {
 			res.err = callErr
@@ -953,6 +991,11 @@ func (c03) Run(ctx *Ctx, ci interface{}) (o Outcome) {
 					outcome = "exit"
 					_ = x
 				default:
+					if msg, ok := p.(string); ok && strings.HasPrefix(msg, "neighbour-stream:") {
+						outcome = "neighbour"
+						o.Fail("neighbour-stream-corrupted:phylip", "%s\n%s", msg, c.describe())
+						break
+					}
 					outcome = "panic"
 					fs := goalignFuncs(st)
 					top := "harness"
